@@ -83,6 +83,126 @@ def interpRow (steps : List (String × String)) (start : Nat) : Option (ParseM P
       else none
 end
 
+
+def stepsOf (fn : String) : List (String × String) :=
+  ((parserSteps.find? (fun r => r.1 == fn)).map (·.2)).getD []
+
+section Generic
+variable (toks : Array PTok) (rec : NT → Nat → ParseM PResult)
+
+/-- `OPEN x : <ann> CLOSE ARROW <body>` with every token kind, both nonterminals, the node and the implicitness read off the row -/
+def binderG (openK : PKind) (annNT : NT) (closeK arrowK : PKind) (bodyNT : NT)
+    (mk : SrcVar → Src → Src → SrcV) (start : Nat) : ParseM PResult :=
+  consume0 toks start openK fun next =>
+  let variableRange := tokenRange toks next
+  consumeIdent toks next fun x next =>
+  consume0 toks next .colon fun next =>
+  tryEval (rec annNT next) fun domain next _ =>
+  consume0 toks next closeK fun next =>
+  consume0 toks next arrowK fun next => do
+  let ⟨body, next, confident⟩ ← rec bodyNT next
+  pure ⟨.mk (span (tokenRange toks start) body.range) false
+          (mk ⟨variableRange, x⟩ domain body) [], next, confident⟩
+
+def mkBinder : String → Option (SrcVar → Src → Src → SrcV)
+  | "Lambda false" => some (fun v d b => .lam v false (.some d) b)
+  | "Lambda true" => some (fun v d b => .lam v true (.some d) b)
+  | "Pi false" => some (fun v d b => .pi v false d b)
+  | "Pi true" => some (fun v d b => .pi v true d b)
+  | _ => none
+
+/-- `x ARROW <body>` -/
+def lambdaG (arrowK : PKind) (bodyNT : NT) (imp : Bool) (start : Nat) : ParseM PResult :=
+  consumeIdent toks start fun x next =>
+  consume0 toks next arrowK fun next => do
+  let ⟨body, next, confident⟩ ← rec bodyNT next
+  pure ⟨.mk (span (tokenRange toks start) body.range) false
+          (.lam ⟨tokenRange toks start, x⟩ imp .none body) [], next, confident⟩
+
+/-- `OPEN x CLOSE ARROW <body>` -/
+def lambdaImplicitG (openK closeK arrowK : PKind) (bodyNT : NT) (imp : Bool) (start : Nat) : ParseM PResult :=
+  consume0 toks start openK fun next =>
+  let variableRange := tokenRange toks next
+  consumeIdent toks next fun x next =>
+  consume0 toks next closeK fun next =>
+  consume0 toks next arrowK fun next => do
+  let ⟨body, next, confident⟩ ← rec bodyNT next
+  pure ⟨.mk (span (tokenRange toks start) body.range) false
+          (.lam ⟨variableRange, x⟩ imp .none body) [], next, confident⟩
+
+/-- `<dom> ARROW <cod>` -/
+def arrowG (domNT : NT) (arrowK : PKind) (codNT : NT) (imp : Bool) (start : Nat) : ParseM PResult :=
+  tryEval (rec domNT start) fun domain next _ =>
+  consume0 toks next arrowK fun next => do
+  let ⟨codomain, next, confident⟩ ← rec codNT next
+  pure ⟨.mk (span domain.range codomain.range) false
+          (.pi ⟨emptyRange toks start, placeholder⟩ imp domain codomain) [], next, confident⟩
+
+/-- `<head> <argument>` -/
+def applicationG (headNT argNT : NT) (start : Nat) : ParseM PResult :=
+  tryEval (rec headNT start) fun applicand next _ =>
+  tryEval (rec argNT next) fun argument next confident =>
+  pure ⟨.mk (span applicand.range argument.range) false (.app applicand argument) [],
+        next, confident⟩
+
+/-- `OP <operand>` -/
+def negationG (opK : PKind) (operandNT : NT) (start : Nat) : ParseM PResult :=
+  consume0 toks start opK fun next => do
+  let ⟨subterm, next, confident⟩ ← rec operandNT next
+  pure ⟨.mk (span (tokenRange toks start) subterm.range) false (.neg subterm) [],
+        next, confident⟩
+
+def boolOfFlag : String → String → Option Bool
+  | v, s => if s == v ++ " false" then some false else if s == v ++ " true" then some true else none
+
+/-- the interpretation of the rows with one of the further shapes (binders, lambdas, arrow, application, negation, variable,
+literal) -/
+def interpRow2 (steps : List (String × String)) (start : Nat) : Option (ParseM PResult) :=
+  match steps with
+  | [("tok0", o), ("tok1", "Identifier"), ("tok0", "Colon"), ("eval", a), ("tok0", c), ("tok0", ar), ("call", b), ("build", v)] =>
+      match kindOfTok o, ntOfFn a, kindOfTok c, kindOfTok ar, ntOfFn b, mkBinder v with
+      | some o, some a, some c, some ar, some b, some mk => some (binderG toks rec o a c ar b mk start)
+      | _, _, _, _, _, _ => none
+  | [("tok1", "Identifier"), ("tok0", ar), ("call", b), ("build", v)] =>
+      match kindOfTok ar, ntOfFn b, boolOfFlag "Lambda" v with
+      | some ar, some b, some imp => some (lambdaG toks rec ar b imp start)
+      | _, _, _ => none
+  | [("tok0", o), ("tok1", "Identifier"), ("tok0", c), ("tok0", ar), ("call", b), ("build", v)] =>
+      match kindOfTok o, kindOfTok c, kindOfTok ar, ntOfFn b, boolOfFlag "Lambda" v with
+      | some o, some c, some ar, some b, some imp => some (lambdaImplicitG toks rec o c ar b imp start)
+      | _, _, _, _, _ => none
+  | [("eval", d), ("tok0", ar), ("call", c), ("build", v)] =>
+      match ntOfFn d, kindOfTok ar, ntOfFn c, boolOfFlag "Pi" v with
+      | some d, some ar, some c, some imp => some (arrowG toks rec d ar c imp start)
+      | _, _, _, _ => none
+  | [("eval", h), ("eval", a), ("build", "Application")] =>
+      match ntOfFn h, ntOfFn a with
+      | some h, some a => some (applicationG rec h a start)
+      | _, _ => none
+  | [("tok0", o), ("call", a), ("build", "Negation")] =>
+      match kindOfTok o, ntOfFn a with
+      | some o, some a => some (negationG toks rec o a start)
+      | _, _ => none
+  | [("tok1", "Identifier"), ("build", "Variable")] => some (parseVariable toks start)
+  | [("tok1", "IntegerLiteral"), ("build", "IntegerLiteral")] => some (parseIntegerLiteral toks start)
+  | _ => none
+end Generic
+
+/-- the functions covered by `interpRow2` -/
+def regularFns2 : List String :=
+  ["parse_variable", "parse_lambda", "parse_lambda_implicit", "parse_annotated_lambda", "parse_annotated_lambda_implicit",
+   "parse_pi", "parse_pi_implicit", "parse_non_dependent_pi", "parse_application", "parse_integer_literal", "parse_negation"]
+
+/-- For each of them, the model body of its nonterminal is the interpretation of the extracted row: every token kind, every
+nonterminal called, the node built and its implicitness come from the row. -/
+theorem regular_bodies2 (toks : Array PTok) (rec : NT → Nat → ParseM PResult) (start : Nat) :
+    ∀ fn ∈ regularFns2, ∃ nt, ntOfFn fn = some nt ∧
+      interpRow2 toks rec (stepsOf fn) start = some (parseBody toks rec nt start) := by
+  intro fn h
+  simp only [regularFns2, List.mem_cons, List.mem_nil_iff, or_false] at h
+  rcases h with rfl | rfl | rfl | rfl | rfl | rfl | rfl | rfl | rfl | rfl | rfl
+  all_goals exact ⟨_, rfl, rfl⟩
+
 /-- the functions whose body is regular -/
 def regularFns : List String :=
   ["parse_term", "parse_atom", "parse_small_term", "parse_medium_term", "parse_large_term", "parse_huge_term",
@@ -91,8 +211,6 @@ def regularFns : List String :=
    "parse_less_than_or_equal_to", "parse_equal_to", "parse_greater_than", "parse_greater_than_or_equal_to",
    "parse_type", "parse_integer", "parse_boolean", "parse_true", "parse_false"]
 
-def stepsOf (fn : String) : List (String × String) :=
-  ((parserSteps.find? (fun r => r.1 == fn)).map (·.2)).getD []
 
 /-- For every regular function, the model body of its nonterminal is the interpretation of the extracted row. -/
 theorem regular_bodies (toks : Array PTok) (rec : NT → Nat → ParseM PResult) (start : Nat) :
@@ -104,20 +222,9 @@ theorem regular_bodies (toks : Array PTok) (rec : NT → Nat → ParseM PResult)
     | rfl | rfl | rfl | rfl | rfl
   all_goals exact ⟨_, rfl, rfl⟩
 
-/-- the rows of the 14 functions that are not regular, as the model was written from them -/
+/-- the rows of the 3 functions with error-recovery scans, as the model was written from them -/
 def irregularRows : List (String × List (String × String)) := [
-  ("parse_variable", [("tok1", "Identifier"), ("build", "Variable")]),
-  ("parse_lambda", [("tok1", "Identifier"), ("tok0", "ThickArrow"), ("call", "parse_term"), ("build", "Lambda")]),
-  ("parse_lambda_implicit", [("tok0", "LeftCurly"), ("tok1", "Identifier"), ("tok0", "RightCurly"), ("tok0", "ThickArrow"), ("call", "parse_term"), ("build", "Lambda")]),
-  ("parse_annotated_lambda", [("tok0", "LeftParen"), ("tok1", "Identifier"), ("tok0", "Colon"), ("eval", "parse_jumbo_term"), ("tok0", "RightParen"), ("tok0", "ThickArrow"), ("call", "parse_term"), ("build", "Lambda")]),
-  ("parse_annotated_lambda_implicit", [("tok0", "LeftCurly"), ("tok1", "Identifier"), ("tok0", "Colon"), ("eval", "parse_jumbo_term"), ("tok0", "RightCurly"), ("tok0", "ThickArrow"), ("call", "parse_term"), ("build", "Lambda")]),
-  ("parse_pi", [("tok0", "LeftParen"), ("tok1", "Identifier"), ("tok0", "Colon"), ("eval", "parse_jumbo_term"), ("tok0", "RightParen"), ("tok0", "ThinArrow"), ("call", "parse_term"), ("build", "Pi")]),
-  ("parse_pi_implicit", [("tok0", "LeftCurly"), ("tok1", "Identifier"), ("tok0", "Colon"), ("eval", "parse_jumbo_term"), ("tok0", "RightCurly"), ("tok0", "ThinArrow"), ("call", "parse_term"), ("build", "Pi")]),
-  ("parse_non_dependent_pi", [("eval", "parse_small_term"), ("tok0", "ThinArrow"), ("call", "parse_term"), ("build", "Pi")]),
-  ("parse_application", [("eval", "parse_atom"), ("eval", "parse_small_term"), ("build", "Application")]),
   ("parse_let", [("tok1", "Identifier"), ("tok0", "Colon"), ("eval", "parse_small_term"), ("exp0", "Equals"), ("tok0", "Equals"), ("call", "parse_term"), ("build", "ParseError"), ("exp1", "Terminator"), ("call", "parse_term"), ("build", "ParseError"), ("build", "Let")]),
-  ("parse_integer_literal", [("tok1", "IntegerLiteral"), ("build", "IntegerLiteral")]),
-  ("parse_negation", [("tok0", "Minus"), ("call", "parse_large_term"), ("build", "Negation")]),
   ("parse_if", [("tok0", "If"), ("call", "parse_term"), ("exp0", "Then"), ("call", "parse_term"), ("build", "ParseError"), ("exp0", "Else"), ("call", "parse_term"), ("build", "ParseError"), ("build", "If")]),
   ("parse_group", [("tok0", "LeftParen"), ("eval", "parse_term"), ("exp0", "RightParen")])
 ]
